@@ -9,6 +9,7 @@ from typing import Any, Dict, List, Optional, Set, Tuple
 
 from lib.vlib import cq_bool, cq_list, cq_nat, cq_opt, cq_str, cq_z
 from harness.universe import Universe, native_table, _dyn
+from harness import mp_obs
 
 CFW_IDS = {"PyArrowTable": 0, "PandasDataFrame": 1, "PythonDictFramework": 2}
 DT_IDS = {"INT32": 1, "INT64": 2, "FLOAT": 3, "DOUBLE": 4, "STRING": 5, "BOOLEAN": 6}
@@ -57,6 +58,9 @@ class Uni7(Universe):
             def calculate_feature(cls: Any, data: Any, features: Any) -> Any:
                 names = sorted(f.get_name() for f in features.features)
                 uni.api_seen.append(data)
+                if mp_obs.in_child():
+                    # MULTIPROCESSING: this list is a forked copy; ship what the root received back to the parent
+                    mp_obs.emit({"ev": "api_seen", "data": {k: list(v) for k, v in data.items()}})
                 uni.listener.on_enter(gname, names, [], None, features)
                 for n in names:
                     if (gname, n) in uni.fail:
